@@ -264,7 +264,10 @@ def sod_replay(chk, scalar):
                ' masa_init<Scalar>("g","sod_1d"); masa_set_param<Scalar>("Gamma",(Scalar)5/(Scalar)3); { volatile Scalar w_ = masa_eval_source_rho<Scalar>((Scalar)0.0,(Scalar)1.0); (void)w_; }\n'
                ' masa_set_param<Scalar>("mu",(Scalar)0.25); printf("R rho53 %%.25Lg\\n",(long double)masa_eval_source_rho<Scalar>((Scalar)0.0,(Scalar)1.0));\n'
                ' masa_init<Scalar>("k","sod_1d"); masa_set_param<Scalar>("Gamma",(Scalar)5/(Scalar)3); masa_set_param<Scalar>("mu",(Scalar)0.25);\n'
-               ' printf("R mom53 %%.25Lg\\n",(long double)masa_eval_source_rho_u<Scalar>((Scalar)0.0,(Scalar)1.0)); return 0;}\n') % cxx
+               ' printf("R mom53 %%.25Lg\\n",(long double)masa_eval_source_rho_u<Scalar>((Scalar)0.0,(Scalar)1.0));\n'
+               ' masa_init<Scalar>("s","sod_1d"); { volatile Scalar w_ = masa_eval_source_rho<Scalar>((Scalar)0.0,(Scalar)1.0); w_ = masa_eval_source_rho_u<Scalar>((Scalar)0.0,(Scalar)1.0); (void)w_; }\n'
+               ' masa_set_param<Scalar>("Gamma",(Scalar)5/(Scalar)3); masa_set_param<Scalar>("mu",(Scalar)0.25);\n'
+               ' printf("R momstale %%.25Lg\\n",(long double)masa_eval_source_rho_u<Scalar>((Scalar)0.0,(Scalar)1.0)); return 0;}\n') % cxx
         rc, out, err = chk.lib().run(src)
         res = rp.parse_results(out)
         got, got53 = res.get('rho'), res.get('rho53')
@@ -281,6 +284,11 @@ def sod_replay(chk, scalar):
             path = chk.save_replay(ob, dict(obligation=ob.name, library=str(gotm), reference=str(r53 * vm53), scenario='fresh handle; Gamma:=5/3; mu:=1/4; momentum evaluated FIRST', stdout=out[-500:]), src)
             return dict(reproduced=True, path=path, detail='sod_1d<%s>: on a fresh handle with Gamma:=5/3, mu:=1/4 the momentum at (0,1), evaluated before any density, is %s; exact solution for the current parameters %s' % (
                 scalar, mp.nstr(gotm, 15) if gotm is not None else None, mp.nstr(r53 * vm53, 15)))
+        gots = res.get('momstale')
+        if gots is None or abs(gots - r53 * vm53) > mp.mpf('1e-9'):
+            path = chk.save_replay(ob, dict(obligation=ob.name, library=str(gots), reference=str(r53 * vm53), scenario='density and momentum at Gamma=1.4; Gamma:=5/3; mu:=1/4; momentum only', stdout=out[-500:]), src)
+            return dict(reproduced=True, path=path, detail='sod_1d<%s>: after evaluations at Gamma=1.4, then Gamma:=5/3, mu:=1/4, the momentum at (0,1) (no density evaluated in between) is %s; exact solution for the current parameters %s' % (
+                scalar, mp.nstr(gots, 15) if gots is not None else None, mp.nstr(r53 * vm53, 15)))
         # (3) the whole wave structure at the default Gamma: both evaluators against the exact Riemann solution on a grid of x/t
         #     (every region, both sides of every front; points closer than 2e-3 to a front are skipped)
         g = mp.mpf('1.4')
@@ -345,7 +353,12 @@ def sod_relations(chk, w0, scalar, gammas):
     fc = sod_fn(w, scalar, 'func')[0]
     ex = w.ex
     PM = tm.sym('p_m')
-    ex.opaque[rt] = lambda e, args, inst: PM
+    def rt_summary(e, args, inst):
+        # the root p_m is a root of func AS func EVALUATES IN THE STATE OF THIS CALL SITE (the members it reads -- c_l, c_r, p_l, ... -- are
+        # whatever the calling evaluator has stored so far): the function is executed here on the symbol p_m and its term recorded
+        e.st.event('rtbis-func', e.call(fc, [args[0], PM]))
+        return PM
+    ex.opaque[rt] = rt_summary
     try:
         v = pde.SolView(chk, w, 'sod_1d', scalar, cache_prefix='cache')      # members the evaluators do not (re)compute are arbitrary remembered values
         G, MU = v.P['Gamma'], v.P['mu']
@@ -385,6 +398,17 @@ def sod_relations(chk, w0, scalar, gammas):
         rp_ = sod_replay(chk, scalar)
         # A. func is the velocity mismatch across the contact
         chk.identity('%s:func(p)=(v_shock-v_rarefaction)/c_r' % tag, S_(func_pm), (vshock - vm) / cr, A, key='sod:func', family=fam, replay=rp_)
+        # ... and the same for func as it evaluates at the rtbis call site of EACH evaluator (a member func reads that the evaluator did not
+        # recompute from the current parameters is a remembered value: the root then belongs to another Gamma)
+        for paths_, what_ in ((prho, 'rho'), (pru, 'rho_u')):
+            seen_ = set()
+            for p_ in paths_:
+                for ev_ in p_['st'].events:
+                    if ev_[0] == 'rtbis-func' and isinstance(ev_[1], T) and ev_[1].id not in seen_:
+                        seen_.add(ev_[1].id)
+                        chk.identity('%s:%s:func-at-the-rtbis-call-site#%d=(v_shock-v_rarefaction)/c_r' % (tag, what_, len(seen_)), S_(ev_[1]), (vshock - vm) / cr, A,
+                                     key='sod:func:%s' % what_, family=fam, witnesses=False, replay=rp_)
+            chk.paths_clean('%s:%s:root-finder-called-with-func-in-a-known-state' % (tag, what_), [] if seen_ else [tm.TRUE], key='sod:func-site:%s' % what_, family=fam, replay=rp_)
         # B. Rankine-Hugoniot with V the shock-side velocity: V^2 given, v_s = V/(1-rho_r/rho_mr)
         V = tm.sym('V_shock')
         AV = A + [tm.cmp('eq', V * V, (cr * cr) * (PM / pr - 1) * (PM / pr - 1) * (1 - MUm) / (Gm * (MUm + PM / pr))), tm.cmp('ge', V, tm.ZERO)]
